@@ -19,6 +19,8 @@ type Stage struct {
 	Other   *Spec  `json:"other,omitempty"` // second operand of merge, cross, +
 	// Fail: the closure of this stage throws at the element with this value (-1: never)
 	Fail int `json:"fail"`
+	// Panic: the failing closure does not throw, it calls a host function that panics
+	Panic bool `json:"panic,omitempty"`
 }
 
 // Spec describes a pipeline.
@@ -53,6 +55,9 @@ func wrap(profile string, x *Expr) *Expr {
 func guard(st Stage, elem *Expr, body *Expr) *Expr {
 	if st.Fail < 0 {
 		return body
+	}
+	if st.Panic {
+		return If(Bin("=", elem, Int(st.Fail)), Index(List(SCall("boom", Int(0)), body), Int(1)), body)
 	}
 	return If(Bin("=", elem, Int(st.Fail)), SCall("throw", Str("T#0#")), body)
 }
@@ -265,10 +270,12 @@ func GenSpec(t *rapid.T, cfg PipeConfig, depth int) *Spec {
 		// one closure fails at an element value that may or may not occur
 		idx := rapid.IntRange(0, len(sp.Stages)).Draw(t, "failStage")
 		v := rapid.IntRange(0, sp.N*2).Draw(t, "failValue")
+		// (C12: in a third of these the closure panics in a host function instead of throwing)
+		pan := cfg.EarlyStop && rapid.IntRange(0, 2).Draw(t, "failByPanic") == 0
 		if idx == len(sp.Stages) {
-			sp.Terminal.Fail = v
+			sp.Terminal.Fail, sp.Terminal.Panic = v, pan
 		} else {
-			sp.Stages[idx].Fail = v
+			sp.Stages[idx].Fail, sp.Stages[idx].Panic = v, pan
 		}
 	}
 	return sp
